@@ -286,6 +286,18 @@ func execC11(op string, a []sx) sx {
 			return fmt.Sprintf("%s rest=%d", dumpVal(back.Elem()).String(), r.Len())
 		}
 		baseline := roundTrip()
+		// A value the library cannot write back faithfully (the decoder leaves a nil pointer inside a struct whose [null, record]
+		// union was null; written again, the nil pointer under a non-nullable type emits nothing) gives bytes that are not a valid
+		// encoding, and what they decode to - or whether they decode - then depends on the iteration order of the maps in the
+		// value. Such a value has no baseline to compare a run under collector pressure with: it is not judged here.
+		for i := 0; i < 12; i++ {
+			if again := roundTrip(); again != baseline {
+				return T("ok", I(0), A("no-stable-baseline"))
+			}
+		}
+		if baseline == "undecodable" {
+			return T("ok", I(0), A("no-stable-baseline"))
+		}
 		churn(1) // before encode
 		old := debug.SetGCPercent(1)
 		var stop atomic.Bool
